@@ -175,6 +175,10 @@ def layout_program(rng):
     """a few commands, the last one placed at a line and a column where the decimal width of `line:col` changes
     (9/10, 99/100, 999/1000, counted from 0 or from 1)"""
     private = [3, 4, 5]
+    if rng.random() < 0.3:
+        # ... or a file whose number of commands sits where the width of the index column changes (10, 100, 1000 commands ± 1)
+        n = rng.choice([9, 10, 11, 12, 99, 100, 101, 102, 999, 1000, 1001, 1002])
+        return rng.choice([" ", "\n"]).join(rng.choice(["형", "형.", "항...", "핫.... "]).strip() for _ in range(n))
     n = rng.choice([1, 2, 3, 4])
     cmds = [render_cmd(gen_cmd(rng, private, io_weight=0.2)) for _ in range(n)]
     edge = [0, 1, 8, 9, 10, 11, 98, 99, 100, 101, 998, 999, 1000, 1001]
